@@ -386,6 +386,8 @@ func gen(a hx.Args) {
 		k := &kinds[r.Intn(len(kinds))]
 		randCfg(r, k).emit()
 	}
+	// 4. one client, several connections, the broker's table changes between them (seq.go)
+	genSeq(a, r)
 }
 
 // ---------------------------------------------------------------- scripted broker
@@ -418,6 +420,13 @@ type env struct {
 	lastAt   time.Time
 	advDone  bool // some ApiVersions answer with a key table has been delivered to the current client
 	focalCh  chan struct{}
+
+	// seq cases (seq.go)
+	seq       *seqRun
+	dialMu    sync.Mutex
+	dials     int
+	dialObj   map[int]string
+	dialOwner map[int]int64
 }
 
 var envs = map[string]*env{}
@@ -428,7 +437,7 @@ func getEnv(kfcap string, sasl bool) *env {
 	if e, ok := envs[name]; ok {
 		return e
 	}
-	e := &env{name: name, net: &sim.Net{}, initDone: map[int]bool{}, kip: map[int]bool{}}
+	e := &env{name: name, net: &sim.Net{}, initDone: map[int]bool{}, kip: map[int]bool{}, dialObj: map[int]string{}, dialOwner: map[int]int64{}}
 	portCtr++
 	opts := []kfake.Opt{kfake.NumBrokers(1), kfake.Ports(portCtr), kfake.SeedTopics(1, "t"), kfake.ListenFn(e.net.ListenFn)}
 	if kfcap != "-" {
@@ -460,6 +469,12 @@ func getEnv(kfcap string, sasl bool) *env {
 			hx.St.Inc("non-request-frame-cut")
 			return sim.KillBefore
 		}
+		e.mu.Lock()
+		defer e.mu.Unlock()
+		if e.seq != nil && e.seq.cutKey[key] { // seq step cutnext:<kind>
+			delete(e.seq.cutKey, key)
+			return sim.KillBefore
+		}
 		return sim.Pass
 	}
 	e.net.OnRequest = e.onRequest
@@ -483,7 +498,7 @@ func cmaxLookup(v *kversion.Versions, k int16) int16 {
 }
 
 func (e *env) client(extra []kgo.Opt, sasl bool) *kgo.Client {
-	opts := []kgo.Opt{kgo.SeedBrokers(e.addr), kgo.Dialer(e.net.Stack.DialContext), kgo.RequestRetries(0),
+	opts := []kgo.Opt{kgo.SeedBrokers(e.addr), kgo.Dialer(e.dialer(0)), kgo.RequestRetries(0),
 		kgo.RetryBackoffFn(func(int) time.Duration { return 20 * time.Millisecond }), kgo.MetadataMinAge(10 * time.Millisecond)}
 	if sasl {
 		opts = append(opts, kgo.SASL(plain.Auth{User: "u", Pass: "p"}.AsMechanism()))
@@ -544,6 +559,9 @@ func (e *env) apiVersions(kreq kmsg.Request) (kmsg.Response, error, bool) {
 	e.c.KeepControl()
 	e.mu.Lock()
 	defer e.mu.Unlock()
+	if e.seq != nil {
+		return e.seqApiVersions(e.seq, kreq.(*kmsg.ApiVersionsRequest))
+	}
 	if e.cur == nil {
 		return nil, nil, false
 	}
@@ -581,6 +599,10 @@ func (e *env) onRequest(conn int, key int16, fr []byte, _ sim.Action) {
 	if conn > e.maxConn {
 		e.maxConn = conn
 	}
+	if e.seq != nil {
+		e.seqOnRequest(e.seq, conn, key, fr)
+		return
+	}
 	if e.cur == nil || conn <= e.minConn {
 		return
 	}
@@ -609,6 +631,10 @@ func (e *env) onResponse(conn int, key int16, fr []byte, delivered bool) {
 	}
 	e.mu.Lock()
 	defer e.mu.Unlock()
+	if e.seq != nil {
+		e.seqOnResponse(e.seq, conn, fr, delivered)
+		return
+	}
 	if e.initDone[conn] {
 		return
 	}
@@ -666,6 +692,9 @@ func classify(err error) string {
 }
 
 func runCase(t []string) string {
+	if len(t) > 0 && t[0] == "seq" {
+		return runSeq(t)
+	}
 	if len(t) != 12 {
 		return "bad-op"
 	}
